@@ -82,7 +82,7 @@ let rec merges (ls : 'a list list) : 'a list list =
       | x :: r -> List.map (fun m -> x :: m) (merges (List.mapi (fun k l' -> if k = i then r else l') ls))
       | [] -> []) ls)
 
-type i2ev = I2Ev of ev * int * int | I2Ov | I2Un of int * int | I2Call of int * int | I2Panic
+type i2ev = I2Ev of ev * int * int | I2Ov | I2Un of int * int | I2Call of int * int | I2Panic | I2Closed of bool
 
 let i2trace_of (impl : string) : i2ev list * string =
   match parse ("(" ^ impl ^ ")") with
@@ -93,6 +93,7 @@ let i2trace_of (impl : string) : i2ev list * string =
           | List [Atom "ov"; _] -> Some I2Ov
           | List [Atom "u"; t; j] -> Some (I2Un (int_of t, int_of j))
           | List [Atom "call"; t; j] -> Some (I2Call (int_of t, int_of j))
+          | List [Atom "rb"; b; _; _] -> Some (I2Closed (b = Atom "#t"))
           | List [Atom "panic"; _] -> Some I2Panic
           | Atom w -> ending := w; None
           | _ -> failwith "bad ileave2 trace") l in
@@ -112,6 +113,36 @@ let i2_sequential (pipe : sexp) (ops : sexp list) : ev list =
       List.filter_map (function FItem (_, v) -> Some (Next v) | FTerm e -> Some e | _ -> None)
         (run_flatten lim (List.map fstim_of ops))
   | _ -> failwith "no sequential model"
+
+(* Histories with a member whose own teardown appends another leaf to the composite it sits in ("append_chained K J"):
+   in the model that is `append K`, and an `append J` right after K's teardown - which, the composite being closed by then
+   (it is marked closed before its members are torn down), tears J down at once.  Returns the model history and the
+   expected observation in the implementation's order (J's teardown right after K's). *)
+let subalg_chained (ops : sexp list) : cop list * cobs list =
+  let hist = ref [] and out = ref [] and chains = ref [] in
+  List.iter (fun op ->
+      match op with
+      | List [Atom "append_chained"; k; j] ->
+          chains := (narg k, narg j) :: !chains;
+          hist := !hist @ [CAppend (narg k)]
+      | _ ->
+          let c = cop_of op in
+          let before = List.length (crun cstate0 !hist) in
+          let after = crun cstate0 (!hist @ [c]) in
+          let fresh = List.filteri (fun i _ -> i >= before) after in
+          hist := !hist @ [c];
+          List.iter (fun o ->
+              out := !out @ [o];
+              match o with
+              | CKilled k when List.mem_assoc k !chains ->
+                  let j = List.assoc k !chains in
+                  chains := List.remove_assoc k !chains;
+                  let b2 = List.length (crun cstate0 !hist) in
+                  let a2 = crun cstate0 (!hist @ [CAppend j]) in
+                  hist := !hist @ [CAppend j];
+                  out := !out @ List.filteri (fun i _ -> i >= b2) a2
+              | _ -> ()) fresh) ops;
+  (!hist, !out)
 
 let rec run_case (kind : string) (body : sexp list) : string * string =
   match kind with
@@ -205,8 +236,10 @@ let rec run_case (kind : string) (body : sexp list) : string * string =
       let r = "(req " ^ string_of_int (int_of_z (remaining off Z0)) ^ ")" in
       (r, r)
   | "subalg" ->
-      let h = List.map cop_of (args (List.nth body 1)) in
-      (show_cobs (crun cstate0 h), "UNSPECIFIED")
+      let ops = args (List.nth body 1) in
+      if List.exists (fun o -> head o = "append_chained") ops
+      then (show_cobs (snd (subalg_chained ops)), "UNSPECIFIED")
+      else (show_cobs (crun cstate0 (List.map cop_of ops)), "UNSPECIFIED")
   | "finalize" when atom (List.nth body 1) = "twice" ->
       (* two subscriptions of clones of one finalize observable: two independent machines; (u I) concerns machine I only *)
       let stims = args (List.nth body 3) in
@@ -541,7 +574,19 @@ let oracle (kind : string) (body : sexp list) (impl : string) : string option =
                  | _ -> "reject:C09/C02 (an item that is not an input item in input order exactly once, an empty or oversized buffer, lost items on completion, or a delivery after a terminal or after unsubscribe)")
   | "subalg" ->
       if String.length impl >= 5 && String.sub impl 0 5 = "PANIC" then Some "reject:panic" else
-      let h = List.map cop_of (args (List.nth body 1)) in
+      let ops = args (List.nth body 1) in
+      if List.exists (fun o -> head o = "append_chained") ops then begin
+        (* the expected observation is computed in the implementation's order; the late additions are what matters *)
+        let expected = snd (subalg_chained ops) in
+        let targets = List.filter_map (function List [Atom "append_chained"; _; j] -> Some (narg j) | _ -> None) ops in
+        let got = (match parse ("(" ^ impl ^ ")") with
+                   | List l -> List.filter_map (function List [Atom "k"; k] -> Some (narg k) | _ -> None) l | _ -> []) in
+        if impl = show_cobs expected then Some "ok"
+        else if List.exists (fun j -> List.mem (CKilled j) expected && not (List.mem j got)) targets
+        then Some "reject:C17 a subscription appended to a composite that was being unsubscribed (by a member's own teardown) was left running"
+        else Some "nocorr:the observation differs from the model's"
+      end else
+      let h = List.map cop_of ops in
       let obs = (match parse ("(" ^ impl ^ ")") with
                  | List l -> List.map (function List [Atom "k"; k] -> CKilled (narg k)
                                                | List [Atom "rb"; Atom "#t"] -> CRet true
@@ -618,6 +663,13 @@ let oracle (kind : string) (body : sexp list) (impl : string) : string option =
       else if List.mem I2Ov tr then Some "reject:C10 the subscriber's callback ran on two threads at once"
       else if not (wf delivered) then Some "reject:C01 a notification after the terminal, or a second terminal"
       else if not (quiet false tr) then Some "reject:C02 the subscriber was called after unsubscribe() had returned"
+      else if not (let rec sound seen = function
+                     | [] -> true
+                     | I2Closed b :: r -> (b || not seen) && sound (seen || b) r
+                     | I2Ev _ :: r -> not seen && sound seen r
+                     | _ :: r -> sound seen r in sound false tr)
+      then Some "reject:C17 is_closed() answered true and a notification was delivered afterwards (or it answered false again)"
+      else if head pipe = "hot" then Some "ok"
       else if head pipe = "fin" then begin
         (* C15: the callback at most once; once when a terminal was delivered or unsubscribe() returned; run by the
            operation that delivered the terminal (after delivering it) or by the unsubscription *)
